@@ -224,6 +224,8 @@ func (in *Interp) eval(c *Cond) bool {
 		return true
 	case OpInvIdx:
 		return int64(in.calls-1) == c.C
+	case OpInvLT:
+		return int64(in.calls-1) < c.C
 	}
 	if c.Var >= len(in.env.set) || !in.env.set[c.Var] {
 		return false
@@ -278,7 +280,7 @@ func (in *Interp) customFn(t *rapid.T, c *CustomSpec) int {
 	g := rapid.IntRange(0, c.Max)
 	for i := 0; i < c.NDraw; i++ {
 		v := g.Draw(t, fmt.Sprintf("c%d_%d", c.ID, i))
-		inv.Draws = append(inv.Draws, DrawRec{fmt.Sprintf("c%d_%d", c.ID, i), valueText(v), c.Vars[i], normText(v)})
+		inv.Draws = append(inv.Draws, DrawRec{fmt.Sprintf("c%d_%d", c.ID, i), valueText(v), c.Vars[i], normText(v), false})
 		w.ev(EvDraw, inv.Idx, fmt.Sprintf("c%d_%d", c.ID, i), valueText(v), 0, true)
 		in.env.vals[c.Vars[i]] = features(v)
 		in.env.set[c.Vars[i]] = true
@@ -299,6 +301,10 @@ func (in *Interp) customFn(t *rapid.T, c *CustomSpec) int {
 	}
 	if c.FailIf != nil && in.eval(c.FailIf) {
 		in.fail(t, inv, c.FKind, c.Site, "custom")
+	}
+	if len(c.Body) > 0 {
+		dc := -1
+		in.exec(t, inv, c.Body, "custom", &dc)
 	}
 	inv.Returned = true
 	return sum
@@ -363,7 +369,7 @@ func (in *Interp) exec(t *rapid.T, inv *Invocation, body []*Stmt, where string, 
 			}
 			*dc++
 			txt := valueText(v)
-			inv.Draws = append(inv.Draws, DrawRec{label, txt, s.Var, normText(v)})
+			inv.Draws = append(inv.Draws, DrawRec{label, txt, s.Var, normText(v), false})
 			w.ev(EvDraw, inv.Idx, label, normText(v), s.Var, true)
 			in.env.vals[s.Var] = features(v)
 			in.env.set[s.Var] = true
@@ -399,7 +405,18 @@ func (in *Interp) exec(t *rapid.T, inv *Invocation, body []*Stmt, where string, 
 					drawsBefore := len(inv.Draws) + 1
 					savedVals := append([][2]int64(nil), in.env.vals...)
 					savedSet := append([]bool(nil), in.env.set...)
+					completed := false
 					defer func() {
+						if completed {
+							inv.stepStart = len(inv.Draws)
+						} else if inv.unwinding != "fatal" && len(inv.Draws) > drawsBefore {
+							// drew and then skipped (or a later generator gave up): the whole step (with the attempts
+							// skipped before it) is a rejected attempt, pruned from recordings
+							for i := inv.stepStart; i < len(inv.Draws); i++ {
+								inv.Draws[i].Rejected = true
+							}
+							inv.stepStart = len(inv.Draws)
+						}
 						if inv.unwinding == "skip" {
 							// a skipped action must leave no trace in the state (its draws are removed from the bitstream)
 							copy(in.env.vals, savedVals)
@@ -413,10 +430,11 @@ func (in *Interp) exec(t *rapid.T, inv *Invocation, body []*Stmt, where string, 
 						}
 					}()
 					inv.Actions = append(inv.Actions, a.Name)
-					inv.Draws = append(inv.Draws, DrawRec{"action", fmt.Sprintf("%#v", a.Name), -1, fmt.Sprintf("%#v", a.Name)})
+					inv.Draws = append(inv.Draws, DrawRec{"action", fmt.Sprintf("%#v", a.Name), -1, fmt.Sprintf("%#v", a.Name), false})
 					w.ev(EvAction, inv.Idx, a.Name, "", 0, true)
 					*dc++
 					in.exec(t, inv, a.Body, "action", dc)
+					completed = true
 				}
 			}
 			if s.HasInv {
@@ -429,6 +447,7 @@ func (in *Interp) exec(t *rapid.T, inv *Invocation, body []*Stmt, where string, 
 			}
 			func() {
 				inv.inRepeat++
+				inv.stepStart = len(inv.Draws)
 				ok := false
 				defer func() {
 					if ok {
